@@ -1,6 +1,9 @@
 import Ymq.Props.C02
+import Ymq.Props.C02C06
 #print axioms Ymq.C02.auto_composite_needs_giveup
 #print axioms Ymq.C02.auto_composite_needs_giveup_det
 #print axioms Ymq.C02.auto_complete
 #print axioms Ymq.C02.factor_composite_needs_giveup
 #print axioms Ymq.C02.factor_auto_complete
+#print axioms Ymq.C02.auto_complete_on
+#print axioms Ymq.C02.auto_complete_64
